@@ -5,6 +5,7 @@ import (
 	"go/constant"
 	"go/token"
 	"go/types"
+	"os"
 	"strings"
 
 	"golang.org/x/tools/go/ssa"
@@ -523,6 +524,9 @@ func runC05(p *core.Prog, r *core.Report) {
 					}
 				}
 			})
+		}
+		if os.Getenv("GLB_C05_DEBUG") != "" {
+			fmt.Fprintf(os.Stderr, "C05 keep=%d allFns=%d\n", keep, len(allFns))
 		}
 		if keep > 0 {
 			var bad []string
